@@ -432,7 +432,7 @@ class HScheduler(ActionScheduler):
     def default_action(self, obj, time, new_state):
         if self.current_state != new_state:
             self.hub.tlog.append(('sched_state_lag', self.name, self.current_state, new_state))
-        self.hub.tlog.append(('sched_action', self.name, obj.name, time, new_state, 'default'))
+        self.hub.tlog.append(('sched_action', self.name, getattr(obj, '_hkey', obj.name), time, new_state, 'default'))
         if hasattr(obj, 'block_input'):
             obj.block_input = (new_state == 'off')
 
@@ -444,7 +444,7 @@ class OverrideAction:
     def __call__(self, sched, obj, time, new_state):
         if sched.current_state != new_state:
             self.hub.tlog.append(('sched_state_lag', sched.name, sched.current_state, new_state))
-        self.hub.tlog.append(('sched_action', sched.name, obj.name, time, new_state, 'override'))
+        self.hub.tlog.append(('sched_action', sched.name, getattr(obj, '_hkey', obj.name), time, new_state, 'override'))
 
 
 class CreatorAction:
@@ -458,7 +458,7 @@ class CreatorAction:
         self.done = False
 
     def __call__(self, sched, obj, time, new_state):
-        self.world.hub.tlog.append(('sched_action', sched.name, obj.name, time, new_state, 'override'))
+        self.world.hub.tlog.append(('sched_action', sched.name, getattr(obj, '_hkey', obj.name), time, new_state, 'override'))
         if not self.done:
             self.done = True
             self.world.run_op(('create',) + tuple(self.late), direct=True)
@@ -651,7 +651,8 @@ class LineWorld:
         elif k == 'gate':
             o = DecisionGate(name, up, DECIDERS[d.get('decider', 'all')])
         elif k == 'flow':
-            o = PartFlowController(name, up)
+            o = PartFlowController(d.get('asset_name', name), up)
+            o._hkey = name           # the harness's own name for the object (two assets may carry the same user-given name)
         elif k == 'batcher':
             o = PartBatcher(name, up, d.get('value', 0), d.get('size'))
         elif k == 'sink':
